@@ -143,6 +143,16 @@ def all_pairs(tier, seed):
     for i in idxs:
         for j, (tag, es, ps) in enumerate(derive_patterns(specs[i], n, rnd)):
             pairs.append(("%d:%s:%d" % (i, tag, j), es, ps))
+    # constants of different widths at corresponding positions (only possible where miasm does not force equal operand
+    # sizes: memory pointers, compose parts, the expression itself)
+    c8, c16, J8, a8, A16 = ('l', 'c', n), ('l', 'c', 2 * n), ('l', 'J0', n), ('l', 'a', n), ('l', 'A', 2 * n)
+    pairs += [
+        ('width:int', c16, c8),
+        ('width:mem-const', ('mem', c16, n), ('mem', c8, n)),
+        ('width:mem-add', ('mem', ('bin', '+', A16, c16), n), ('mem', ('bin', '+', J8, c8), n)),
+        ('width:compose', ('compose', c16, a8), ('compose', c8, ('l', 'J1', 2 * n))),
+        ('width:mem-in-op', ('bin', '+', ('mem', c16, n), a8), ('bin', '+', ('mem', c8, n), J8)),
+    ]
     return pairs
 
 
@@ -190,6 +200,9 @@ def run_task(task):
             except Exception as ex:
                 eng.fail('no-exception', dict(exc="%s: %s" % (type(ex).__name__, ex)))
                 return
+            from vf.symx import SymBool
+            if isinstance(r, SymBool):
+                r = bool(r)                       # a comparison of symbolic constants returned as the verdict: decide it here
             if r is False:
                 return
             matched[0] += 1
